@@ -14,22 +14,22 @@ CLAIMED = {
          'Real HMC::step on Autodiff<NdArray<f64>> and <f32> against dual targets (burn code for the library, analytic f64 log-density and gradient for the reference): Gaussians d 1..16 with random SPD precision, the library Gaussian/Rosenbrock targets, Student-t, quartic, funnel; 1..32 chains, eps 1e-4..1e3 incl. unstable, L 0..64, histories of 1..10 steps (steps after rejections counted). Per row: proposal = exactly L velocity-Verlet steps from the traced (x, p), decision ln u <= H - H_prop from the traced quantities, new row bitwise the proposal or bitwise the old row, no influence between rows (one row perturbed, same draws), integrator reversible.',
          'Trusts: the draw trace (hook H5) reports the tensors actually used; tolerance from the measured amplification of a few-ulp input perturbation through the reference; rows whose tolerance exceeds 5% of the scale and decisions inside the rounding margin are counted, not judged.', '3/C02'),
  'C03': ('exploration', 'deterministic simulation of the randomness and target seams: every NUTS transition replayed through an independent f64 implementation of Algorithm 6 fed the traced draws by role, with margin-aware discrete decisions; build_tree also exercised in isolation',
-         'Real NUTSChain::run (f64 and f32 backends) on dual targets (Gaussians d 1..8 with random precision, library Gaussian/Rosenbrock, Student-t, quartic, funnel; very wide Gaussians for trees of depth 11; bounded-support / NaN-region targets whose leaves of -inf or NaN energy are outside the slice and end the doubling; f64 log-densities with additive constants 1e2..1e9) with step sizes from the start-up heuristic through dual averaging to the frozen value. Per transition the reference consumes the traced momentum, slice level, directions, merge uniforms (recursion order) and accept uniforms and must agree on depth, stopping (U-turn / stopped sub-tree / divergence), number of leapfrogs, n, alpha/n_alpha and the next state; the private build_tree is called through its wrapper for depth 0..10, both directions, slice levels from above the start to 1000 below it.',
+         'Real NUTSChain::run (f64 and f32 backends) on dual targets (Gaussians d 1..8 with random precision, library Gaussian/Rosenbrock, Student-t, quartic, funnel; very wide Gaussians for trees of depth 11; bounded-support / NaN-region targets whose leaves of -inf or NaN energy are outside the slice and end the doubling; f64 log-densities with additive constants 1e2..1e9) with step sizes from the start-up heuristic through dual averaging to the frozen value. Per transition the reference consumes the traced momentum, slice level, directions, merge uniforms (recursion order) and accept uniforms and must agree on depth, stopping (U-turn / stopped sub-tree / divergence), number of leapfrogs, n, alpha/n_alpha and the next state; the private build_tree is called through its wrapper for depth 0..10, both directions, slice levels from above the start to 1000 below it, incl. an exactly representable family in which U-turn products are exactly 0 (ties are judged, not skipped).',
          'Trusts: the draw trace (hook H4); decisions whose margin (from a shadow trajectory started a few ulps away) contains the threshold make the transition ambiguous: counted (well below 1%), not judged.', '3/C03'),
  'C04': ('exploration', 'deterministic simulation over call histories: reference dual-averaging recurrence driven by the traced per-transition statistics, freeze invariant across run() calls, positivity/finiteness, eps0 by its defining property',
-         'Histories of 1-4 run() calls on one seeded NUTSChain (the warm-up counter persists), requested rates 0.5..0.99, warm-ups 0..40 (thorough: up to 2000), smooth targets plus half-line/box targets. After every transition: the statistic fed into the recurrence equals the one Algorithm 6 assigns on the traced draws (f64 log-densities with additive constants up to 1e9 included), counter, step size in force, H-bar, ln eps and ln eps-bar against the f64 recurrence (gamma .05, t0 10, kappa .75, mu = ln(10 eps) re-derived per call), after warm-up eps == eps-bar bitwise and unchanged for ever, eps and eps-bar positive and finite always; eps0 a power of two at the 1/2-acceptance crossing of the reference integrator; lenient statistical clause on long warm-ups.',
+         'Histories of 1-4 run() calls on one seeded NUTSChain (the warm-up counter persists; 1 history in 3 re-seeds the chain between calls), requested rates 0.5..0.99, warm-ups 0..40 (thorough: up to 2000), smooth targets plus half-line/box targets. After every transition: the statistic fed into the recurrence equals the one Algorithm 6 assigns on the traced draws (f64 log-densities with additive constants up to 1e9 included), counter, step size in force, H-bar, ln eps and ln eps-bar against the f64 recurrence (gamma .05, t0 10, kappa .75, mu = ln(10 eps) re-derived per call), after warm-up eps == eps-bar bitwise and unchanged for ever, eps and eps-bar positive and finite always; eps0 a power of two at the 1/2-acceptance crossing of the reference integrator; lenient statistical clause on long warm-ups.',
          'Trusts: the traced acceptance statistic (judged by C03); f32 chains are compared with tolerance 2e-5 and the model is re-synchronised after each transition.', '3/C04'),
  'C05': ('exploration', 'deterministic simulation against a recording Conditional stub: call-history oracle (order, exactly-once, freshest state) + exact kernel invariance on small joint tables; multi-chain runs under seeded schedules',
          'The real Gibbs step runs against a recording conditional that returns unique values: per step exactly d calls, each coordinate once, every given equal to the freshest state, the state after the step exactly the returned values, other chains untouched (checked for the multi-chain sampler under W simulated workers, and for 2-4 chains of different dimension stepped in a seeded interleaving on one thread). On random joint tables over {0,1,2}^d (d<=4) the one-step kernel is assembled from the true full conditionals evaluated at the given the library actually passed and pi K = pi is checked exactly.',
          'Trusts: the recording stub; reversed or permuted sweep orders are deliberately not violations (the statement fixes once-each and freshest-state, not the order).', '3/C05'),
  'C06': ('exploration', 'seeded sampling over the randomness seam only (weakest fit for this family, no fault or schedule): z-tests of per-chain time averages over K independent exactly-stationary chains + distribution / independence tests of the draws by role',
-         'All four real samplers on targets with closed-form moments (correlated Gaussians, Poisson / table pmfs with an asymmetric walk, bivariate Gaussian via Gibbs conditionals), K >= 48..256 chains started from exact draws of the target so a correct kernel is stationary from step 0; means, second and cross moments, tail and pmf cells are z-tested (alarm at |z| > 7); the draws themselves (traced momenta, Exp(1) slice draws, directions, merge / accept uniforms, MH acceptance uniforms, proposal noise) are KS- and moment-tested against N(0,1), Exp(1), U(0,1), fair coin and checked for lag-1, cross-role and cross-chain correlation. Second scenario over API histories: restarts from exact draws assigned to the public state of an already-run sampler (>= 12000 iid replicates per run) and seeded samplers used in 40-80 short run() calls (pooled moments; first draws of consecutive calls uncorrelated).',
+         'All four real samplers on targets with closed-form moments (correlated Gaussians, Poisson / table pmfs with an asymmetric walk (clamped at the edge in half of the runs), bivariate Gaussian via Gibbs conditionals), K >= 48..256 chains started from exact draws of the target so a correct kernel is stationary from step 0; means, second and cross moments, tail and pmf cells are z-tested (alarm at |z| > 7); the draws themselves (traced momenta, Exp(1) slice draws, directions, merge / accept uniforms, MH acceptance uniforms, proposal noise) are KS- and moment-tested against N(0,1), Exp(1), U(0,1), fair coin and checked for lag-1, cross-role and cross-chain correlation. Second scenario over API histories: restarts from exact draws assigned to the public state of an already-run sampler (>= 12000 iid replicates per run) and seeded samplers used in 40-80 short run() calls (pooled moments; first draws of consecutive calls uncorrelated).',
          'Statistical: a clean run is evidence that no bias above roughly 3-5% of a second moment exists at the explored configurations, nothing more; subtle invariance defects with small moment effects (e.g. a distorted slice level) are below its resolution and are the business of C01-C03.', '3/C06'),
  'C07': ('exploration', 'deterministic simulation: bit-equality with the sequential single-worker run under seeded schedules, simulated worker counts, concurrently interleaved samplers and progress mode',
          'Every sampler kind (MH f32/f64/discrete, Gibbs, HMC f32/f64, NUTS f32/f64 on Gaussian and Rosenbrock targets) is built twice from the same inputs and seed and run sequentially (reference), then run() executes under 1..16 simulated pool workers with a scheduling point per transition, 2-3 samplers are interleaved per transition in one process (1 in 3: all of them inside run_progress), 1 in 4 samplers goes through a history of 2-3 run() calls, and run_progress runs on simulated threads/clock: all outputs must be bit-identical to the reference (NUTS progress: shifted by one). Seeds include 0, 2^32, 2^63 and u64::MAX-k; a different seed must change the output once the chain has moved; the seeded initialisers are called from several simulated threads in different orders and inside real rayon pools of 1, 2, 3, 7 workers, with total sizes at the thresholds named in the sources.',
          'Trusts: shuttle; the work-claiming stub for the rayon pool (cross-checked against real pools on 1/8 of runs); MH proposals seeded by the harness (Proposal::set_seed) count as inputs; default (OS-entropy) construction is outside C07.', '3/C07'),
  'C08': ('exploration', 'deterministic simulation of the randomness seam: pairwise stream comparison between chains and between acceptance and proposal generators, through public generator fields, a user-defined spy proposal and the traced momenta',
-         'Multi-chain MH (library proposal and a user-defined seedable proposal with a public generator), HMC batches and NUTS are built with defaults and seeded (special seeds incl. u64::MAX-k) with 2..64 chains all at one common state (seeds also next to the integer constants harvested from the shipped sources; HMC batches over states of dimension 1..5000 at size thresholds); for every pair of chains the proposal noise, acceptance generator states, traced momenta / acceptance draws and trajectories must differ, and in no chain may the acceptance generator equal the proposal generator.',
+         'Multi-chain MH (library proposal and a user-defined seedable proposal with a public generator), HMC batches and NUTS are built with defaults and seeded (special seeds incl. u64::MAX-k) with 2..64 chains all at one common state (seeds also next to the integer constants harvested from the shipped sources; HMC batches over states of dimension 1..5000 at size thresholds); for every pair of chains the proposal noise, acceptance generator states, traced momenta / acceptance draws and trajectories must differ, and in no chain may the acceptance generator equal the proposal generator; NUTS samplers are compared again after a second run.',
          'Trusts: SmallRng: PartialEq as the stream identity; default construction uses OS entropy (no seam): values vary, the verdict is structural (clones are equal for every entropy value).', '3/C08'),
  'C09': ('exploration', 'deterministic simulation: seeded schedules over simulated pool workers + transition-counter reference model over run() histories',
          'Seeded search over histories of run() calls on counting chains (state = chain id, transitions so far) executed by W simulated workers under random/PCT/sticky schedules with a scheduling point per transition; every returned cell, every chain counter and the state the sampler is left in are compared with the transition-counter model. Evidence, not proof: schedules and histories are sampled.',
@@ -41,7 +41,7 @@ CLAIMED = {
          'ChainTracker, collect_rhat and MultiChainTracker are driven by generated update histories (length 2..5000, 2..16 chains, 1..8 parameters, f64/f32/i32 states, agreeing and shifted chains, repeated states): count, mean, unbiased variance, the acceptance EMA recurrence and range are checked after every update, both R-hat figures against the classical sqrt(var+/W) at chosen prefixes. Real run_chain_progress workers on simulated threads/clock send snapshots to a stub listener: which prefix a snapshot covers is decided by the schedule and clock, and every snapshot must be the batch statistics of exactly that prefix; the R-hat combined from the snapshots present at a poll (chains at different counts) must not depend on the order of the trackers.',
          'Trusts: condition-aware tolerance 8*n*eps32*(1+mean^2/var); comparisons whose own bound exceeds 2% are counted, not judged.', '3/C13'),
  'C14': ('exploration', 'deterministic simulation with fault-returning targets: invariant after every transition of MH / HMC / NUTS runs on targets with bounded support, NaN regions, NaN gradients and overflowing step sizes; hang decided against the Algorithm 6 stopping point',
-         'The targets are the fault injectors: -inf outside a half-line or box, NaN from log/sqrt of negative arguments, NaN beyond a radius, cliffs; proposals that leave the support and extreme candidates (inf, NaN, 1e308); HMC step sizes up to 3e38; starts of finite density incl. next to the boundary; acceptance draws down to 1 ulp injected (exactly 0 excepted). After every transition of every run: coordinates finite, the harness own f64 copy of the log-density finite, and a transition whose candidate was inadmissible left the state bitwise unchanged; no panic; a NUTS run cut off by the evaluation budget is a hang only if the library had doubled beyond the point where Algorithm 6 stops.',
+         'The targets are the fault injectors: -inf outside a half-line or box, NaN from log/sqrt of negative arguments, NaN beyond a radius, cliffs; proposals that leave the support and extreme candidates (inf, NaN, 1e308); HMC step sizes up to 3e38; starts of finite density incl. next to the boundary; acceptance draws down to 1 ulp injected (exactly 0 excepted). After every transition of every run: coordinates finite, the harness own f64 copy of the log-density finite, and a transition whose candidate was inadmissible left the state bitwise unchanged; no panic; a NUTS run cut off by the evaluation budget is a hang only if the library had doubled beyond the point where Algorithm 6 stops. Fault scenario: the target code panics once during a step and the caller catches it; the state must be admissible after that step and after every later one.',
          'Trusts: the f64 copy of each target; merely long trajectories (tiny adapted step sizes next to a boundary) are counted, not judged.', '3/C14'),
  'C16': ('exploration', 'deterministic simulation of the generator seam: injected uniform variates (crafted generator states) incl. the complete f32 variate space; reference inverse CDF with zero-probability exclusion',
          'Categorical::new / logp / sample run for real; the private OS-seeded generator is replaced (verification-only constructor) by a crafted state whose next output is chosen. Per weight vector (length 1..64, zeros anywhere, unnormalised): normalisation, bitwise logp, and sample() for the variates 0, 1 ulp, 1-ulp, the representable values around every cumulative boundary and random ones; for f32 vectors the complete space of 2^24 variates is enumerated (exhaustive per vector) and exact selection frequencies are compared with the probabilities. A zero-probability category is never acceptable.',
